@@ -1,13 +1,26 @@
 package main
 
 import (
+	"encoding/json"
 	"flag"
 	"fmt"
 	"os"
 	"runtime/debug"
 )
 
+// Progress records the case about to run, so that a crash of this process can be attributed to it.
+func (c *Ctx) Progress(v interface{}) {
+	if c.Out == "" {
+		return
+	}
+	b, err := json.Marshal(v)
+	if err == nil {
+		os.WriteFile(c.Out+".progress", b, 0o644)
+	}
+}
+
 type Ctx struct {
+	Out    string
 	Prop   string
 	Tier   string
 	Seed   uint64
@@ -46,7 +59,7 @@ func main() {
 		fmt.Fprintln(os.Stderr, "unknown property", *prop)
 		os.Exit(2)
 	}
-	c := &Ctx{Prop: *prop, Tier: *tier, Seed: *seed, Repo: *repo, Verif: *verif, Replay: *replay, R: NewResult(), Rng: NewRng(*seed)}
+	c := &Ctx{Out: *out, Prop: *prop, Tier: *tier, Seed: *seed, Repo: *repo, Verif: *verif, Replay: *replay, R: NewResult(), Rng: NewRng(*seed)}
 	func() {
 		defer func() {
 			if r := recover(); r != nil {
